@@ -45,7 +45,7 @@ def jobs(tier):
     n = 4 if tier == 'quick' else 5
     for fam in F.FAMILIES:
         for impl in F.IMPLS:
-            for variant in ('centred', 'extreme'):
+            for variant in ('centred', 'extreme') + (('none',) if fam[0] == 'O' else ()):
                 js.append({'fn': 'job', 'weight': (10 if impl == 'py' else 2) * (1 if variant == 'extreme' else 3),
                            'group': impl,
                            'args': dict(fam=fam, impl=impl, n=n if variant == 'centred' else 3,
@@ -148,7 +148,12 @@ def job(fam, impl, n, variant):
     sample = None
     subsets = [tuple(k for k, c in zip(keys, combo) if c)
                for combo in itertools.product((False, True), repeat=len(keys))]
-    forms = FORMS if variant == 'centred' else CONTAINER_FORMS + ['list/shuffled+dup', 'None']
+    if variant == 'centred':
+        forms = FORMS
+    elif variant == 'none':     # None next to ints cannot be sorted in a plain list
+        forms = CONTAINER_FORMS + ['None']
+    else:
+        forms = CONTAINER_FORMS + ['list/shuffled+dup', 'None']
     modfuncs = [(name, getattr(mod, name + sfx)) for name in ('union', 'intersection', 'difference')]
     alg = {'union': lambda a, b: a | b, 'intersection': lambda a, b: a & b,
            'difference': lambda a, b: a - b, 'or': lambda a, b: a | b, 'and': lambda a, b: a & b,
